@@ -155,6 +155,19 @@ def freeEvent (treeOrder : Nat) (st : RState) (pfn k : Nat) : Option (Nat × RSt
         st.set partPfn (if pfn != partPfn then some ⟨a.frame + part * 2 ^ k, k⟩ else none)) st
       some (a.frame + (pfn - ap), st')
 
+/-- the `allocated` table is a `Vec` of `len = max_pfn` entries: does the bookkeeping of a free
+    event index it out of bounds (a Rust panic)? The first look-up is at `align_down(pfn, 2^k)`
+    (later ones are at smaller indices); the split writes the parts of the covering allocation
+    in increasing order up to `ap + 2^order - 2^k`. -/
+def freeEventOob (len treeOrder : Nat) (st : RState) (pfn k : Nat) : Bool :=
+  if pfn / 2 ^ k * 2 ^ k ≥ len then true
+  else match findCover treeOrder st pfn k with
+    | none => false
+    | some ap =>
+      match st.get ap with
+      | none => false
+      | some a => ap + (2 ^ (a.order - k) - 1) * 2 ^ k ≥ len
+
 /-- `Classing::movable(cores)` request of the replayer without a classing file -/
 def movableRequest (hugeOrder : Nat) (order core cores : Nat) (movable : Bool) : Request :=
   if order ≥ hugeOrder then ⟨order, 2, some (core % cores)⟩
@@ -182,10 +195,12 @@ def replayRun (c : Cfg) (cores : Nat) (evs : List TraceEv) (m : Mem) : Mem × Ou
       let req := movableRequest c.geom.hugeOrder e.order e.cpu cores ((e.flags &&& 0x08) != 0)
       if e.alloc then
         match runSolo (get c none req) m with
-        | (m, .ok (.ok (frame, _))) => go rest m (st.set e.pfn (some ⟨frame, e.order⟩)) failed unknown
+        | (m, .ok (.ok (frame, _))) =>
+          if e.pfn ≥ c.frames then (m, .panic "index out of bounds")   -- `allocated[pfn]`
+          else go rest m (st.set e.pfn (some ⟨frame, e.order⟩)) failed unknown
         | (m, .ok (.error _)) => (m, .panic "called `Result::unwrap()` on an `Err` value")
         | (m, .panic s) => (m, .panic s)
-      else
+      else if freeEventOob c.frames c.geom.treeOrder st e.pfn e.order then (m, .panic "index out of bounds") else
         match freeEvent c.geom.treeOrder st e.pfn e.order with
         | none => go rest m st failed (unknown + 1)
         | some (frame, st') =>
